@@ -381,7 +381,7 @@ def _benign_function_atoms(d):
         if len(by_kind.get(kind, [])) == 1 and sum(len(by_kind.get(k, [])) for k in ("exp", "log", "sin", "cos")) == 1:
             a = by_kind[kind][0]
             if any(x[0] == "n" for x in from_key(a[2][0]).atoms()) and not any(
-                    x[0] == "f" for x in from_key(a[2][0]).atoms()):
+                    x[0] == "f" and x[1] != "abs" for x in from_key(a[2][0]).atoms()):
                 out.add(a)
     seen = {}
     for a in by_kind.get("max", []) + by_kind.get("min", []):
@@ -483,7 +483,8 @@ def definitely_different(p, q, _no_frac=False):
         if any(sh):
             if a[0] != "s" or max(sh) > 6:
                 return "not-comparable"
-            if any(x[0] in OPAQUE_KINDS and x not in benign for x in from_key(a[1]).atoms()):
+            # top-level factors of the sum only: what sits inside a benign function atom is part of that variable
+            if any(x[0] in OPAQUE_KINDS and x not in benign for x in from_key(a[1]).atoms(deep=False)):
                 return "not-comparable"
         shifts[a] = sh
     N = Poly()
@@ -524,6 +525,64 @@ def coefficient(p, atom):
 
 class NonLinear(NotComparable):
     pass
+
+
+# ----------------------------------------------------------------------------
+# deep substitution and the even-in-t idiom  exp(-|t|)
+# ----------------------------------------------------------------------------
+def deep_subst(p, mapping):
+    """replace atoms by forms everywhere (also inside opaque sums, function arguments and exponents);
+    the result is re-normalised"""
+    def atom_form(a):
+        if a in mapping:
+            return mapping[a]
+        if a[0] == "s":
+            return None  # rebuilt by the caller with its exponent
+        if a[0] == "f":
+            args = [deep_subst(from_key(k), mapping) for k in a[2]]
+            keys = [x.key for x in args]
+            if a[1] in ("max", "min"):
+                keys = sorted(keys, key=_skey)
+            return Poly.atom(("f", a[1], tuple(keys)))
+        return Poly.atom(a)
+
+    res = Poly()
+    for m, c in p.terms.items():
+        term = Poly.const(c)
+        for a, ek in m:
+            e = deep_subst(from_key(ek), mapping)
+            if a[0] == "s" and a not in mapping:
+                base = deep_subst(from_key(a[1]), mapping)
+            else:
+                base = atom_form(a)
+            term = term * base.pow(e)
+        res = res + term
+    return res
+
+
+def resolve_even_exp_abs(p):
+    """u = exp(-|t|) takes only the values exp(t) and exp(-t) = 1/exp(t).  When the form is invariant
+    under u -> 1/u (as a rational function) it equals the same form with u = exp(t); return that.
+    Otherwise the form is returned unchanged."""
+    for a in list(p.atoms()):
+        if not (a[0] == "f" and a[1] == "exp" and len(a[2]) == 1):
+            continue
+        arg = from_key(a[2][0])
+        if not arg.is_monomial():
+            continue
+        (m, c), = arg.terms.items()
+        if c != -1 or len(m) != 1 or m[0][0][0] != "f" or m[0][0][1] != "abs" or from_key(m[0][1]).as_const() != 1:
+            continue
+        t = from_key(m[0][0][2][0])
+        u = Poly.atom(a)
+        try:
+            flipped = deep_subst(p, {a: u.pow(Poly.const(-1))})
+            if definitely_different(flipped, p) != "equal":
+                continue
+            p = deep_subst(p, {a: Poly.atom(("f", "exp", (t.key,)))})
+        except NotComparable:
+            continue
+    return p
 
 
 # ----------------------------------------------------------------------------
